@@ -196,6 +196,22 @@ def run_case(case):
         i = int(np.nonzero(np.isnan(pdf) | (pdf < 0))[0][0])
         r.violation(f'{sig}:pdf-negative-or-nan', f'{tag}: pdf({P[i]!r}) = {pdf[i]!r}', case=case)
 
+    # ---- container independence: a Series with a permuted integer index means the same values, by position ------------
+    import pandas as pd
+    fin_pts = pts[np.isfinite(pts)]
+    lab = np.argsort((np.arange(len(fin_pts)) * 7919) % len(fin_pts), kind='stable')
+    for meth in ('cumulative_distribution', 'probability_density'):
+        try:
+            a = np.asarray(getattr(model, meth)(fin_pts.copy()), float)
+            b = np.asarray(getattr(model, meth)(pd.Series(fin_pts.copy(), index=lab)), float)
+            r.tr(2)
+            if a.shape != b.shape or not np.array_equal(a, b, equal_nan=True):
+                r.violation(f'{sig}:container-dependence:{meth}', f'{tag}: {meth} of a Series with a permuted index differs from '
+                            f'the same values as an array', case=case)
+        except Exception as e:
+            r.violation(f'{sig}:container-raises:{type(e).__name__}', f'{tag}: {meth}(Series) raised {type(e).__name__}: {e}',
+                        case=case)
+
     # ---- integral of the density over every inter-quantile interval ---------------------------------------
     xi = np.unique(xq[np.isfinite(xq)])
     if len(xi) >= 2:
